@@ -33,7 +33,7 @@ func TestWorker(t *testing.T) {
 	// sixteen workers share the machine: the collector works harder from 2.5 GiB on, and a worker whose
 	// live heap passes the recycle limit (core: 1 GiB) hands its shard to a fresh process
 	debug.SetMemoryLimit(5 << 29)
-	cpuBudget, heapBudget := 6.0, uint64(768<<20)
+	cpuBudget, heapBudget := 10.0, uint64(768<<20)
 	if d.cpuBudget > 0 {
 		cpuBudget = d.cpuBudget
 	}
